@@ -4,16 +4,20 @@ programs x optimisation configurations; reference = `-Q0` on the same route; std
 and backtrace offsets masked) and exit class are compared.  A difference is shrunk over the
 switch set so that the replay names the guilty switches:
 
-    ctx.finding("opt|<route>|Q<level>+<switches>", what naming program and outputs,
-                replay={source, two commands, two outputs, minimal level and switches})
+    ctx.finding("opt|<route>|Q<level>+<switches>|<program>|<outcome class>", what, replay={source, two
+                commands, two outputs, minimal level and switches})
 
-The signature is the *cause*: the route and the 1-minimal switch set (with the lowest level at which
-exactly that set shows the difference); the program is in the text and in the replay.  Failures are
-not monotone in the switch set, so the set a shrink ends in depends on where it starts; to keep the
-signatures stable every failing configuration is first tried against the causes already known -
-those of the open C02 entries of known_findings.json and those found earlier in the run - and is
-attributed to the first one whose own configuration reproduces the SAME wrong behaviour of the same
-program.  Only a failure that none of them reproduces is shrunk and gets a new signature.
+<program> is the corpus file (stable), <outcome class> one of wrong-output / fault / fault-stack-growth /
+no-termination.  Every (program, switch set) pair that differs on the unchanged tree is listed on its
+own in known_findings.json; the open C02 entries are also the search's library: a failing
+configuration of program P is first tried against the listed sets OF P (same route or the other one,
+same outcome class) and is attributed to one whose own configuration still shows that class of
+difference; otherwise it is shrunk (1-minimal set, lowest level) and gets a new signature.  A
+different program failing under the same switch set is therefore reported.
+Generated programs (vlib.miniald) have no stable name.  They are attributed to a listed cause only
+by a mechanical test - `opt|<route>|<set>|generated|no-termination` resp. `fault-stack-growth`: the
+listed set reproduces that class - and otherwise the PROGRAM is shrunk too (miniald.shrink) and
+reported as `opt|<route>|<set>|generated|<sha8 of the shrunk source>`.
 
 Configurations (names from lean/AldorVerif/Gen/OptControl.json, regenerated from optfoam.c):
 levels -Q1..-Q<max>, -O, `-Q0 -Q<switch>` for every switch, `-Q<max> -Qno-<switch>` for every
@@ -150,6 +154,8 @@ def run_direct(lb, text, route, opts, wall):
     r = aldor.run_source(lb, text, route, libopts(text) + list(opts), timeout=wall)
     if r["rc"] is None:
         c = CPU if XCPU_MSG in _s(r["compile_out"]) else cls(r["compile_rc"])
+        if c != CPU and ("Program fault" in _s(r["compile_out"]) or c.startswith("signal")):
+            c = "compiler-fault"
         return ("nocompile:" + c, ""), _s(r["compile_out"])[-1500:]
     c = cls(r["rc"])
     if c == "fail" and XCPU_MSG in _s(r["stdout"]) + _s(r["stderr"]):
@@ -163,8 +169,11 @@ def run_ao(lb, text, opts, wall):
     r = aldor.compile(lb, {"prog.as": text}, lo + list(opts) + ["-Fao", "prog.as"], timeout=wall)
     ao = r["outputs"].get("prog.ao")
     if r["rc"] != 0 or ao is None:
-        c = CPU if XCPU_MSG in _s(r["stdout"]) + _s(r["stderr"]) else cls(r["rc"])
-        return ("nocompile:" + c, ""), (_s(r["stdout"]) + _s(r["stderr"]))[-1500:]
+        txt = _s(r["stdout"]) + _s(r["stderr"])
+        c = CPU if XCPU_MSG in txt else cls(r["rc"])
+        if c != CPU and ("Program fault" in txt or c.startswith("signal")):
+            c = "compiler-fault"              # the compiler process itself faulted while compiling
+        return ("nocompile:" + c, ""), txt[-1500:]
     r2 = aldor.compile(lb, {"prog.ao": ao}, lo + ["-Ginterp", "prog.ao"], timeout=wall)
     c = cls(r2["rc"])
     if c == "fail" and XCPU_MSG in _s(r2["stdout"]) + _s(r2["stderr"]):
@@ -279,7 +288,7 @@ def corpus_programs():
     return out
 
 def generated_programs(ctx, n):
-    """(name, source, expected stdout) from vlib.miniald: programs the model accepts and that end normally"""
+    """(name, source, expected stdout, ast) from vlib.miniald: programs the model accepts and that end normally"""
     try:
         from vlib import miniald
     except Exception:
@@ -288,12 +297,16 @@ def generated_programs(ctx, n):
         progs = miniald.generate(ctx.rng, n)
         models = miniald.model(progs)
         out = []
-        for i, m in enumerate(models):
+        feats = {}
+        for i, (a, m) in enumerate(zip(progs, models)):
             src = m.get("braced")
             if not m.get("ok") or not src or m.get("exit") != "ok":
                 continue
-            out.append(("gen%04d" % i, src, m.get("stdout", "")))
-        return out, "vlib.miniald: %d of %d generated programs accepted by the model with exit ok" % (len(out), len(progs))
+            out.append(("gen%04d" % i, src, m.get("stdout", ""), a))
+            for f in m.get("features", ()):
+                feats[f] = feats.get(f, 0) + 1
+        return out, "vlib.miniald: %d of %d generated programs accepted by the model with exit ok; features %s" % (
+            len(out), len(progs), {k: feats[k] for k in sorted(feats)})
     except Exception as e:      # the generator is somebody else's part: never let it break this one
         return [], "vlib.miniald failed: %r" % (e,)
 
@@ -301,12 +314,25 @@ def generated_programs(ctx, n):
 def flag_list(tab, s):
     return ",".join(f for f in tab.flags if f in s) or "-"
 
+def outcome_class(out):
+    """of the behaviour that differs from the reference"""
+    if hangs(out):
+        return "no-termination"
+    if "Stack Growth Excessive" in out[1]:
+        return "fault-stack-growth"          # fint.c stackChain: more than 3000 locals in one prog
+    if out[0] == "nocompile:compiler-fault":
+        return "fault-compiler"              # the compiler faults while compiling (seen through the .ao route)
+    return "wrong-output" if out[0] == "ok" else "fault"
+
 class ProgState:
-    def __init__(self, name, text, expected):
-        self.name, self.text, self.expected = name, text, expected
+    def __init__(self, name, text, expected, ast=None):
+        self.name, self.text, self.expected, self.ast = name, text, expected, ast
+        self.key = "generated" if ast is not None or expected is not None else name
         self.ref = {}            # route -> outcome
         self.found = []          # dicts: route, level, on, hang, outcomes (set of wrong outcomes attributed to it)
         self.bad = {}            # route -> [(config, outcome)]
+        self.ran = set()         # spellings of the configurations that were run (interp route)
+        self.hung_at = None      # lowest plain level (-Q<n>) at which the compiler was seen not to terminate
     def explained(self, route, out):
         """the same wrong behaviour of this program on this route was reported already"""
         return any(f["route"] == route and out in f["outcomes"] for f in self.found)
@@ -314,8 +340,11 @@ class ProgState:
         """the compiler does not terminate for a subset of these switches (whatever the route)"""
         return any(f["hang"] and c.level >= f["level"] and f["on"] <= c.on for f in self.found)
 
+MECHANICAL = ("no-termination", "fault-stack-growth")     # classes a generated program may be attributed by
+INLINER = frozenset(["inline", "inline-all"])
+
 class Causes:
-    """(route, level, frozenset of switches): from the open known findings of the property and from this run"""
+    """(route, level, switches, program key, class): the open known findings of the property + this run's"""
     def __init__(self, tab, known):
         self.items = []
         for k in known:
@@ -324,32 +353,43 @@ class Causes:
                 self.items.append(c)
     @staticmethod
     def parse(tab, sig):
-        m = re.match(r"^opt\|(interp|c)\|Q(\d+)\+(.*)$", sig)
+        if re.match(r"^opt\|(interp|c)\|inline\|generated\|fault-compiler-inline$", sig):
+            return (sig.split("|")[1], 0, INLINER, "generated", "fault-compiler-inline")
+        m = re.match(r"^opt\|(interp|c)\|Q(\d+)\+([^|]*)\|([^|]+)\|([^|]+)$", sig)
         if not m:
             return None
         fl = [] if m.group(3) == "-" else m.group(3).split(",")
         if any(f not in tab.flags for f in fl):
             return None
-        return (m.group(1), int(m.group(2)), frozenset(fl))
+        return (m.group(1), int(m.group(2)), frozenset(fl), m.group(4), m.group(5))
     def add(self, c):
         with _LOCK:
             if c not in self.items:
                 self.items.append(c)
-    def candidates(self, route, cfg):
-        """(level, switches) known from either route (a cause is rarely specific to the back end), smallest first"""
+    def candidates(self, key, cfg, klass):
+        """(level, switches) listed for this program (either route) with this outcome class that the
+        configuration contains, smallest first; generated programs: mechanical classes only"""
+        if key == "generated" and klass not in MECHANICAL:
+            return []
         with _LOCK:
-            cs = {(c[1], c[2]) for c in self.items if c[1] <= cfg.level and c[2] <= cfg.on}
+            cs = {(c[1], c[2]) for c in self.items if c[3] == key and c[4] == klass and c[1] <= cfg.level and c[2] <= cfg.on}
         return sorted(cs, key=lambda c: (len(c[1]), c[0], sorted(c[1])))
 
-def signature(tab, route, lv, s):
-    return "opt|%s|Q%d+%s" % (route, lv, flag_list(tab, s))
+def signature(tab, route, lv, s, key, klass):
+    return "opt|%s|Q%d+%s|%s|%s" % (route, lv, flag_list(tab, s), key, klass)
 
 def symptom(out):
     return "%s|%s" % (out[0], hashlib.sha256(out[1].encode("utf-8", "replace")).hexdigest()[:8])
 
+def quick_skip(p, c):
+    """quick tier only: the plain level -Q<n> was seen not to terminate for this program; every listed
+    no-termination cause involves the inliner, so configurations at that level or above that still inline are
+    not started (each would cost the full CPU limit); the thorough tier runs them (after the exact shrink)"""
+    return p.hung_at is not None and c.level >= p.hung_at and ("inline" in c.on)
+
 def run_grid(lb, progs, route, configs_of, wall, stats, deadline=None):
-    """all (program, configuration) pairs of one stage in one pool; fills p.bad[route].  Past the
-    deadline (quick tier) nothing more is started; the programs left out are counted."""
+    """all (program, configuration) pairs of one stage, in pools of a few hundred runs; fills p.bad[route].
+    Past the deadline (quick tier) nothing more is started; the programs left out are counted."""
     jobs, idx = [], []
     for p in progs:
         if route not in p.ref:
@@ -358,11 +398,11 @@ def run_grid(lb, progs, route, configs_of, wall, stats, deadline=None):
             stats["left_out_by_time_budget"] += 1
             continue
         for c in configs_of(p):
-            if p.masked(c):
+            if p.masked(c) or (deadline and quick_skip(p, c)):
                 stats["masked_by_hang"] += 1
                 continue
             jobs.append((run_cfg, (lb, p.text, route, c.spelling, wall), {})); idx.append((p, c))
-        if deadline and len(jobs) > 600:
+        if deadline and len(jobs) > 200:
             run_jobs(jobs, idx, route, stats)
             jobs, idx = [], []
     run_jobs(jobs, idx, route, stats)
@@ -373,13 +413,51 @@ def run_jobs(jobs, idx, route, stats):
     for (p, c), r in zip(idx, res):
         out = r[0] if not isinstance(r, Exception) else ("check-error", repr(r))
         stats["by_kind"][route + ":" + c.kind] = stats["by_kind"].get(route + ":" + c.kind, 0) + 1
+        if route == "interp":
+            p.ran.add(c.key())
         if inconclusive(out):
             stats["inconclusive"] += 1
             continue
         if out != p.ref[route] or (p.expected is not None and out[0] == "ok" and out[1] != p.expected):
             p.bad.setdefault(route, []).append((c, out))
+            if hangs(out) and c.kind == "level" and (p.hung_at is None or c.level < p.hung_at):
+                p.hung_at = c.level
 
-def shrink_program(ctx, build, lb, tab, causes, p, route, wall, stats, max_findings, shrink_budget, workers):
+def shrink_generated(lb, p, sroute, lv, s, tab, klass, wall, budget, stats):
+    """smallest generated program (miniald.shrink) that still shows this class of difference between -Q0
+    and the minimal configuration; returns (source, features) - the original when nothing smaller does"""
+    try:
+        from vlib import miniald
+        spelling = explicit(tab, lv, s)
+        def pred(cands):
+            ms = miniald.model(cands)
+            jobs, where = [], []
+            for i, m in enumerate(ms):
+                if m.get("ok") and m.get("braced") and m.get("exit") == "ok":
+                    jobs.append((run_cfg, (lb, m["braced"], sroute, ["-Q0"], wall), {}))
+                    jobs.append((run_cfg, (lb, m["braced"], sroute, spelling, wall), {}))
+                    where.append(i)
+            res = aldor.run_many(jobs)
+            stats["runs"] += len(jobs)
+            ok = [False] * len(cands)
+            for k, i in enumerate(where):
+                a, b = res[2 * k], res[2 * k + 1]
+                if isinstance(a, Exception) or isinstance(b, Exception):
+                    continue
+                a, b = a[0], b[0]
+                if inconclusive(a) or inconclusive(b) or a[0] != "ok":
+                    continue
+                ok[i] = (a != b and outcome_class(b) == klass)
+            return ok
+        small = miniald.shrink(p.ast, pred, budget=budget)
+        m = miniald.model([small])[0]
+        if m.get("braced"):
+            return m["braced"], sorted(m.get("features", ()))
+    except Exception as e:          # noqa: the finding is reported with the unshrunk program then
+        stats.setdefault("program_shrink_errors", []).append(repr(e)[:200])
+    return p.text, []
+
+def shrink_program(ctx, build, lb, tab, causes, p, route, wall, stats, max_findings, shrink_budget, workers, prog_budget):
     bad = p.bad.pop(route, [])
     bad.sort(key=lambda t: (len(t[0].on), t[0].level, t[0].key()))
     ref = p.ref[route]
@@ -410,19 +488,35 @@ def shrink_program(ctx, build, lb, tab, causes, p, route, wall, stats, max_findi
                 same[0]["outcomes"].add(out)         # same program output, other compiler messages
                 stats["explained_by_earlier_finding"] += 1
                 continue
-        # a cause already known (listed, or found earlier in this run) that reproduces the same wrong behaviour?
-        cands = causes.candidates(route, c)
+        klass = outcome_class(sout)
+        # a set listed for THIS program (generated: mechanical classes only) that still shows this class of difference?
+        cands = causes.candidates(p.key, c, klass)
         attributed = None
         if cands:
             res = aldor.run_many([(run_cfg, (lb, p.text, sroute, explicit(tab, lv, s), wall), {}) for lv, s in cands], workers=workers)
             stats["runs"] += len(cands)
             for (lv, s), r in zip(cands, res):
                 o = r[0] if not isinstance(r, Exception) else ("check-error", repr(r))
-                if o == sout:
+                if not inconclusive(o) and o != sref and outcome_class(o) == klass:
                     attributed = (lv, s, o); break
-        if attributed:
+        text, shape = p.text, None
+        inliner_fault = False
+        if (not attributed and p.key == "generated" and klass == "fault-compiler" and (c.on & INLINER)
+                and any(k[3] == "generated" and k[4] == "fault-compiler-inline" for k in causes.items)):
+            # mechanical test of the listed cause "the inliner makes the compiler fault on a generated program":
+            # the same configuration without inline/inline-all compiles and behaves like -Q0
+            o, _ = run_cfg(lb, p.text, sroute, explicit(tab, c.level, c.on - INLINER), wall)
+            stats["runs"] += 1
+            if o == sref:
+                inliner_fault = True
+                lv, s, fout = c.level, c.on, sout
+                complete, note, spelling = False, "attributed mechanically: without inline/inline-all the same configuration behaves like -Q0", c.spelling
+                stats["attributed_to_known_cause"] += 1
+        if inliner_fault:
+            pass
+        elif attributed:
             lv, s, fout = attributed
-            complete, note, spelling = True, "attributed to an already known cause (its configuration reproduces the same behaviour)", explicit(tab, lv, s)
+            complete, note, spelling = True, "attributed to a listed switch set of this program (its configuration shows the same class of difference)", explicit(tab, lv, s)
             stats["attributed_to_known_cause"] += 1
         else:
             sh = Shrinker(lb, tab, p.text, sroute, sref, wall, shrink_budget, workers)
@@ -438,38 +532,51 @@ def shrink_program(ctx, build, lb, tab, causes, p, route, wall, stats, max_findi
                 spelling = explicit(tab, lv, s)
                 note = "" if complete else "shrinking stopped at its run budget; the set may not be minimal"
                 fout = sh.cache[(lv, frozenset(s))][0]
-            causes.add((route, lv, frozenset(s)))
+            klass = outcome_class(fout) if m is not None else klass
+            if p.key != "generated":
+                causes.add((route, lv, frozenset(s), p.key, klass))
         p.found.append({"route": route, "level": lv, "on": frozenset(s), "hang": hangs(fout) or hangs(sout),
                         "outcomes": {out, sout, fout}})
-        sig = signature(tab, route, lv, s)
-        what = ("%s (%s route): behaviour with `%s` differs from `-Q0`: %s/%r instead of %s/%r; minimal switch set: level %d, {%s} "
-                "(`%s`)%s" % (p.name, route, c.key(), sout[0], sout[1][-160:], sref[0], sref[1][-160:], lv, flag_list(tab, s),
-                              " ".join(spelling), ("; " + note) if note else ""))
+        if inliner_fault:
+            sig = "opt|%s|inline|generated|fault-compiler-inline" % route
+        elif p.key == "generated" and not (attributed and klass in MECHANICAL):
+            # no stable name: shrink the program as well, the signature carries the shrunk source
+            if p.ast is not None and m is not None:
+                text, shape = shrink_generated(lb, p, sroute, lv, s, tab, klass, wall, prog_budget, stats)
+            sig = "opt|%s|Q%d+%s|generated|%s" % (route, lv, flag_list(tab, s), hashlib.sha256(text.encode()).hexdigest()[:8])
+        elif not inliner_fault:
+            sig = signature(tab, route, lv, s, p.key, klass)
+        what = ("%s (%s route): behaviour with `%s` differs from `-Q0` (%s): %s/%r instead of %s/%r; minimal switch set: level %d, {%s} "
+                "(`%s`)%s%s" % (p.name, route, c.key(), klass, sout[0], sout[1][-160:], sref[0], sref[1][-160:], lv, flag_list(tab, s),
+                                " ".join(spelling), ("; " + note) if note else "",
+                                ("; shrunk program has features %s" % shape) if shape is not None else ""))
         stats["findings"].append("%s  %s %s" % (sig, p.name, symptom(sout)))
         with _LOCK:
             ctx.finding(sig, what,
-                        {"kind": "opt-changes-behaviour", "program": p.name, "route": sroute, "source": p.text,
-                         "reference_command": command_line(build, sroute, ["-Q0"], p.text),
-                         "failing_command": command_line(build, sroute, spelling, p.text),
+                        {"kind": "opt-changes-behaviour", "program": p.name, "route": sroute, "source": text,
+                         "original_source": p.text if text != p.text else None,
+                         "reference_command": command_line(build, sroute, ["-Q0"], text),
+                         "failing_command": command_line(build, sroute, spelling, text),
                          "reference_options": ["-Q0"], "failing_options": list(spelling),
                          "reference_output": {"exit": sref[0], "stdout": sref[1][-4000:]},
                          "failing_output": {"exit": fout[0], "stdout": fout[1][-4000:]},
                          "first_seen_with": c.key(), "first_seen_output": {"exit": sout[0], "stdout": sout[1][-4000:]},
-                         "minimal_level": lv, "minimal_switches": flag_list(tab, s),
+                         "minimal_level": lv, "minimal_switches": flag_list(tab, s), "outcome_class": klass,
                          "fully_minimised": complete, "expected_from_model": p.expected,
                          "note": "`%s` = stopped by `ulimit -t` (does not terminate within the CPU limit); route `ao` = compiled to "
-                                 ".ao with the options, the saved unit interpreted in a second run" % CPU})
+                                 ".ao with the options, the saved unit interpreted in a second run; for a shrunk generated program the "
+                                 "outputs shown are those of the original program" % CPU})
 
-def shrink_all(ctx, build, lb, tab, causes, progs, route, wall, stats, max_findings, shrink_budget, deadline=None):
-    """one program after the other, in the order given (the causes found for one program are tried first on
-    the next: the outcome must not depend on scheduling); the runs of one shrink step go in parallel"""
+def shrink_all(ctx, build, lb, tab, causes, progs, route, wall, stats, max_findings, shrink_budget, prog_budget, deadline=None):
+    """one program after the other, in the order given (the outcome must not depend on scheduling); the runs
+    of one shrink step go in parallel"""
     for p in progs:
         if p.bad.get(route):
             if deadline and time.time() > deadline:
                 stats["unshrunk_by_time_budget"] += 1
                 p.bad.pop(route, None)
                 continue
-            shrink_program(ctx, build, lb, tab, causes, p, route, wall, stats, max_findings, shrink_budget, 2 * common.NCPU)
+            shrink_program(ctx, build, lb, tab, causes, p, route, wall, stats, max_findings, shrink_budget, 2 * common.NCPU, prog_budget)
 
 def replay(build, rep):
     """re-runs the two commands of a replay file; returns 1 when they still behave differently"""
@@ -495,40 +602,40 @@ def run_part(ctx, build):
     lb = limited_build(build, cpu)
     causes = Causes(tab, [k for k in ctx.known if k.get("property") == ctx.prop])
     corpus = corpus_programs()
-    gen, gen_note = generated_programs(ctx, int(os.environ.get("VERIF_C02_GEN", 40 if not thorough else 400)))   # (override: development only)
+    gen, gen_note = generated_programs(ctx, int(os.environ.get("VERIF_C02_GEN", 48 if not thorough else 400)))   # (override: development only)
     stats = {"programs_total": len(corpus), "generated": len(gen), "generator": gen_note, "switches": tab.flags,
              "by_kind": {}, "explained_by_earlier_finding": 0, "compiler_messages_only": 0, "compiler_messages_examples": [],
              "findings_cap_hit": 0, "masked_by_hang": 0, "attributed_to_known_cause": 0, "left_out_by_time_budget": 0,
              "unshrunk_by_time_budget": 0, "inconclusive": 0, "findings": [], "runs": 0,
-             "cpu_limit_s": cpu, "wall_backstop_s": wall}
+             "cpu_limit_s": cpu, "wall_backstop_s": wall, "phases": {}}
     # The random subsets come from a fixed list of 200 (seeded by a constant, so that what the thorough tier
     # explores is the same whatever VERIF_SEED, and covers the quick tier); the quick tier takes 4 of them,
     # chosen by VERIF_SEED.
     allrandom = random_configs(tab, random.Random(20020202), int(os.environ.get("VERIF_C02_RANDOM", 200)))
-    nrandom = len(allrandom) if thorough else 4
+    nrandom = len(allrandom) if thorough else min(4, len(allrandom))
     rconfigs = allrandom if thorough else [allrandom[i] for i in sorted(rng.sample(range(len(allrandom)), nrandom))]
     stage1 = base_configs(tab)
+    first = [c for c in stage1 if c.kind == "single" or c.key() in ("-Q1", "-Q2")]      # cheap, and a single switch names the pass
+    rest_levels = [c for c in stage1 if c not in first]
     max_findings = 8
     shrink_budget = 150 if not thorough else 800
+    prog_budget = 40 if not thorough else 250
 
-    # ---- which programs
-    if thorough:
-        sample = list(corpus)
-    else:
-        sample = sorted(rng.sample(corpus, min(30, len(corpus))), key=lambda p: p[0])
-    # corpus programs and generated programs alternate, so that a time budget cuts both kinds alike
-    both, a, b = [], list(sample), list(gen)
-    while a or b:
-        if a: both.append(a.pop(0))
-        if b: both.append(b.pop(0))
-    progs = [ProgState(*p) for p in both]
+    # ---- which programs: generated ones first (quick: all of them), then the corpus (quick: a seeded sample)
+    sample = list(corpus) if thorough else sorted(rng.sample(corpus, min(30, len(corpus))), key=lambda p: p[0])
+    gprogs = [ProgState(n, t, e, a) for n, t, e, a in gen]
+    cprogs0 = [ProgState(*p) for p in sample]
+    progs = gprogs + cprogs0
+    stats["programs_run"] = len(progs)
 
-    # ---- references (interpreter); a loaded machine shrinks the quick sample instead of overrunning
-    tA = time.time()
+    def phase(name, t):
+        stats["phases"][name] = round(time.time() - t0, 1)
+    # quick tier: a time budget (a phase stops starting work when its share is used up; what was left out is counted)
+    dl = (lambda s: None) if thorough else (lambda s: t0 + s)
+
+    # ---- references (interpreter)
     res = aldor.run_many([(run_cfg, (lb, p.text, "interp", ["-Q0"], wall), {}) for p in progs])
     stats["runs"] += len(progs)
-    per_run = (time.time() - tA) / max(1, len(progs))
-    stats["seconds_per_run_effective"] = round(per_run, 3)
     for p, r in zip(progs, res):
         out = r[0] if not isinstance(r, Exception) else ("check-error", repr(r))
         if inconclusive(out) or hangs(out):
@@ -536,40 +643,50 @@ def run_part(ctx, build):
             continue
         p.ref["interp"] = out
         if p.expected is not None and out[0] == "ok" and out[1] != p.expected:
-            ctx.finding("opt|%s|interp:Q0-vs-model" % p.name,
+            ctx.finding("opt|interp|Q0-vs-model|generated|%s" % hashlib.sha256(p.text.encode()).hexdigest()[:8],
                         "generated program %s prints something else than the model expects already at -Q0" % p.name,
                         {"kind": "differs-from-model", "program": p.name, "source": p.text,
                          "command": command_line(build, "interp", ["-Q0"], p.text), "output": out[1][-2000:], "expected": p.expected[-2000:]})
-    if not thorough:
-        per_prog = len(stage1) + len(tab.flags) + nrandom
-        keep = max(6, min(len(progs), int(170.0 / max(per_run * per_prog, 0.001))))
-        if keep < len(progs):
-            stats["quick_sample_reduced_to"] = keep
-            progs = [progs[i] for i in sorted(rng.sample(range(len(progs)), keep))]
-    stats["programs_run"] = len(progs)
+    phase("references", t0)
 
-    # ---- interpreter: stage 1 (levels, -O, single switches), shrink, stage 2 (complements, random), shrink
-    # quick tier: a time budget (the phases stop starting work when it is used up; what was left out is counted)
-    dl = (lambda s: None) if thorough else (lambda s: t0 + s)
-    run_grid(lb, progs, "interp", lambda p: stage1, wall, stats, dl(120))
-    shrink_all(ctx, build, lb, tab, causes, progs, "interp", wall, stats, max_findings, shrink_budget, dl(190))
-    def stage2(p):
-        # complements relative to the top level (those for which the compiler is already known not to terminate
-        # are skipped as masked) and, when the top level itself is masked for this program, also relative to
-        # the highest level that is not
+    args = (ctx, build, lb, tab, causes)
+    # ---- 1. -Q1, -Q2 and every single switch, every program
+    run_grid(lb, progs, "interp", lambda p: first, wall, stats, dl(110))
+    shrink_all(*args, progs, "interp", wall, stats, max_findings, shrink_budget, prog_budget, dl(150))
+    phase("singles+Q1+Q2", t0)
+    # ---- 2. the other levels and -O
+    # (the top level last and on its own: with its unlimited inline limit the compiler often runs into the CPU limit)
+    top = [c for c in rest_levels if c.level == tab.maxq]
+    run_grid(lb, progs, "interp", lambda p: [c for c in rest_levels if c.level != tab.maxq], wall, stats, dl(170))
+    run_grid(lb, progs, "interp", lambda p: top, wall, stats, dl(185))
+    shrink_all(*args, progs, "interp", wall, stats, max_findings, shrink_budget, prog_budget, dl(215))
+    phase("levels", t0)
+    # ---- 3. complements, 4. random subsets
+    def complements(p):
+        # relative to the top level (those for which the compiler is already known not to terminate are skipped as
+        # masked) and, when the top level itself is masked for this program, also to the highest level that is not
         base = tab.maxq
-        while base > tab.maxl and p.masked(Config(base, tab.on_at(base), [], "")):
+        while base > tab.maxl and (p.masked(Config(base, tab.on_at(base), [], "")) or
+                                    (not thorough and p.hung_at is not None and base >= p.hung_at)):
             base -= 1
         stats.setdefault("complement_base", {})
         stats["complement_base"][str(base)] = stats["complement_base"].get(str(base), 0) + 1
+        if not thorough and ("-Q%d" % tab.maxq) not in p.ran:
+            # quick tier: the top level itself was not reached for this program (time budget), so whether it
+            # terminates is unknown; its complements would each risk the full CPU limit
+            stats["left_out_by_time_budget"] += 1
+            return []
         cs = complement_configs(tab, tab.maxq)
         if base < tab.maxq:
             cs += complement_configs(tab, base)
-        return cs + rconfigs
-    run_grid(lb, progs, "interp", stage2, wall, stats, dl(215))
-    shrink_all(ctx, build, lb, tab, causes, progs, "interp", wall, stats, max_findings, shrink_budget, dl(240))
+        return cs
+    run_grid(lb, progs, "interp", complements, wall, stats, dl(240))
+    run_grid(lb, progs, "interp", lambda p: [c for c in rconfigs if thorough or c.level < tab.maxq or ("-Q%d" % tab.maxq) in p.ran],
+             wall, stats, dl(255))
+    shrink_all(*args, progs, "interp", wall, stats, max_findings, shrink_budget, prog_budget, dl(270))
+    phase("complements+random", t0)
 
-    # ---- C route: a sample with a few configurations (quick), everything (thorough)
+    # ---- 5. C route: a sample with a few configurations (quick), everything (thorough)
     cprogs = [p for p in progs if not p.name.startswith("order_") and "interp" in p.ref]
     if not thorough:
         cprogs = [cprogs[i] for i in sorted(rng.sample(range(len(cprogs)), min(10, len(cprogs))))]
@@ -579,22 +696,27 @@ def run_part(ctx, build):
     else:
         c1 = stage1
     stats["c_programs"] = len(cprogs)
-    res = aldor.run_many([(run_cfg, (lb, p.text, "c", ["-Q0"], wall), {}) for p in cprogs])
-    stats["runs"] += len(cprogs)
-    for p, r in zip(cprogs, res):
-        out = r[0] if not isinstance(r, Exception) else ("check-error", repr(r))
-        if inconclusive(out) or hangs(out):
-            stats["inconclusive"] += 1
-            continue
-        p.ref["c"] = out
-    run_grid(lb, cprogs, "c", lambda p: c1, wall, stats, dl(260))
-    shrink_all(ctx, build, lb, tab, causes, cprogs, "c", wall, stats, max_findings, shrink_budget, dl(280))
-    if thorough:
-        run_grid(lb, cprogs, "c", stage2, wall, stats)
-        shrink_all(ctx, build, lb, tab, causes, cprogs, "c", wall, stats, max_findings, shrink_budget)
+    if thorough or time.time() < t0 + 275:
+        res = aldor.run_many([(run_cfg, (lb, p.text, "c", ["-Q0"], wall), {}) for p in cprogs])
+        stats["runs"] += len(cprogs)
+        for p, r in zip(cprogs, res):
+            out = r[0] if not isinstance(r, Exception) else ("check-error", repr(r))
+            if inconclusive(out) or hangs(out):
+                stats["inconclusive"] += 1
+                continue
+            p.ref["c"] = out
+        run_grid(lb, cprogs, "c", lambda p: c1, wall, stats, dl(300))
+        shrink_all(*args, cprogs, "c", wall, stats, max_findings, shrink_budget, prog_budget, dl(315))
+        if thorough:
+            # (the random subsets stay on the interpreter route: the optimiser is the same, only code generation differs)
+            run_grid(lb, cprogs, "c", complements, wall, stats)
+            shrink_all(*args, cprogs, "c", wall, stats, max_findings, shrink_budget, prog_budget)
+    else:
+        stats["left_out_by_time_budget"] += len(cprogs)
+    phase("c-route", t0)
 
     stats["wall_s"] = round(time.time() - t0, 1)
-    stats["configurations_per_program"] = len(stage1) + len(tab.flags) + len(rconfigs)
+    stats["configurations_per_program"] = len(stage1) + 2 * len(tab.flags) + len(rconfigs)
     ctx.cov["optsearch"] = stats
     ctx.cov["evaluations"] += stats["runs"]
     ctx.cov["distinct_nontrivial"] += len(progs)
